@@ -261,10 +261,17 @@ func ruleR36(c *Ctx) *RuleResult {
 		var bad []string
 		n := 0
 		for _, g := range gc.GCs {
-			for _, ef := range g.Effects {
+			for ei, ef := range g.Effects {
 				// node.Entries[index] = SRC.Entries[k]
 				if !(isStore(ef) && ef.Args[0].Op == "ia" && noEpoch(ef.Args[0]) == "(ia (load (fa:Entries p:1)) p:2)") {
 					continue
+				}
+				// (node, index) locate the entry as the tree stood when delete was entered: the replacement is stored before
+				// the path rebalances (a merge or rotation through node moves its entries: a later store hits a stale slot)
+				for _, e0 := range g.Effects[:ei] {
+					if nm, _, ok := effDo(e0); ok && nm == "rebalance" {
+						bad = append(bad, "the replacing entry is stored into node.Entries[index] after rebalance has run: the slot was located before the tree was restructured")
+					}
 				}
 				v := ef.Args[1]
 				if !(v.Op == "load" && v.Args[0].Op == "ia" && v.Args[0].Args[0].Op == "load" && v.Args[0].Args[0].Args[0].Op == "fa" && v.Args[0].Args[0].Args[0].Leaf == "Entries") {
